@@ -13,7 +13,7 @@ from concurrent.futures import ThreadPoolExecutor
 VERIF = os.path.dirname(os.path.dirname(os.path.abspath(__file__)))
 REPO = "/repo"
 EXTRA = {"C01": ["C02"], "C02": ["C01"], "C03": ["C12", "C13"], "C07": ["C01"], "C08": ["C14"], "C12": [], "C13": [],
-         "C14": ["C08"], "C09": [], "C17": []}
+         "C14": ["C08", "C15"], "C09": [], "C17": []}
 
 
 def one(name):
